@@ -838,10 +838,9 @@ def sublist (P, atoms, path):
   cache = {}
   for a in atoms:
     key = repr(a)
-    if key not in cache: cache[key] = sub(P, a)
-    o, e, s = cache[key]
-    if len(atoms) > 64:
-      o = sub(P, a)[0]                  # fresh object per element, cached expectation
+    o, e, s = sub(P, a)                 # a fresh object per element (equal elements are not shared)
+    if key in cache: e = cache[key]     # ... the expectation of equal elements is computed once
+    else: cache[key] = e
     objs.append(o); exps.append((a[0], e)); strict = strict and s
   def exp ():
     out = []
